@@ -331,6 +331,13 @@ func planC11(tier string, root *simcore.RNG) *plan {
 		if (multi && r.Intn(2) == 0) || r.Intn(6) == 0 {
 			sc.Env.Race = true
 		}
+		// a slow consumer in real time: the writer goroutine sleeps 3..6 ms at every
+		// k-th arrival at one of its hook sites
+		if r.Intn(6) == 0 {
+			sc.ConsStallMs, sc.ConsStallEvery = 3+r.Intn(4), pick(r, []int{1, 2, 4})
+			// the producer keeps running while the consumer is slow
+			sc.Sites["prod"], sc.Sites["write"] = 64, 64
+		}
 		id++
 		pl.scenarios = append(pl.scenarios, sc)
 	}
